@@ -27,6 +27,7 @@ theorem withdraw_trace_inv {so : ScriptOf} {a : Account} {outputs : List TxOut} 
     {nv : Nat} {f : Faults} (h : (withdraw so a outputs rate best eh nv f).trace ≠ []) :
     a.state = StateOpen ∧ a.version ≤ nv ∧ ∃ ne v, optExpiry eh best = .ok ne ∧
       valueAfterAccountUpdate a.value outputs (determineWitnessType a best) rate = .ok v ∧
+      (createNewAccountOutput so a v ne nv).1.script ∉ outputs.map (·.script) ∧
       withdraw so a outputs rate best eh nv f
         = spendAccount so a .withdraw (createSpendTx so a ((createNewAccountOutput so a v ne nv).1 :: outputs))
             (determineWitnessType a best) ((createNewAccountOutput so a v ne nv).2 ++ [.state StatePendingUpdate])
@@ -45,8 +46,18 @@ theorem withdraw_trace_inv {so : ScriptOf} {a : Account} {outputs : List TxOut} 
         split at h
         · simp [refuse] at h
         · rename_i v hvau
-          refine ⟨by simpa using hs, by omega, ne, v, hne, hvau, ?_⟩
-          simp [hs, hv, hne, hvau]
+          split at h
+          · simp [refuse] at h
+          · rename_i hown
+            have hfact : withdrawRefusesOwnScript = true := by decide
+            refine ⟨by simpa using hs, by omega, ne, v, hne, hvau, ?_, ?_⟩
+            · simp only [hfact, true_and, List.any_eq_true, decide_eq_true_eq, not_exists, not_and] at hown
+              intro hm
+              obtain ⟨o, ho, hs'⟩ := List.mem_map.mp hm
+              exact hown o ho hs'
+            · simp [hs, hv, hne, hvau]
+              intro _ x hx hsx
+              exact absurd ⟨hfact, List.any_eq_true.mpr ⟨x, hx, by simpa using hsx⟩⟩ hown
 
 theorem renew_trace_inv {so : ScriptOf} {a : Account} {newExpiry : UInt32} {rate : Int} {best : UInt32}
     {nv : Nat} {f : Faults} (h : (renew so a newExpiry rate best nv f).trace ≠ []) :
@@ -186,5 +197,28 @@ theorem fullWeight_single_out {so : ScriptOf} {a : Account} (o : TxOut) (hl : o.
   simp only [fullWeight, createSpendTx, Account.txIn]
   rw [strippedSize_single _ rfl]
   simp [sortBy, insertBy, serializeSize_of_len o hl, c3, v1]
+
+end Pool.C07
+
+namespace Pool.C07
+open Pool.Gen.C07
+
+/-- `determineWitnessType`: the expiry witness is chosen exactly when the account is marked expired or the best
+height has reached its expiry -/
+theorem determineWitnessType_expiry (a : Account) (best : UInt32) :
+    ((determineWitnessType a best = wt_expiryWitness ∨ determineWitnessType a best = wt_expiryTaproot) ↔
+      (a.state = StateExpired ∨ a.expiry.toNat ≤ best.toNat)) ∧
+    ((determineWitnessType a best = wt_multiSigWitness ∨ determineWitnessType a best = wt_muSig2Taproot) ↔
+      ¬ (a.state = StateExpired ∨ a.expiry.toNat ≤ best.toNat)) := by
+  have e1 : wt_expiryWitness = 0 := by decide
+  have e2 : wt_multiSigWitness = 1 := by decide
+  have e3 : wt_expiryTaproot = 2 := by decide
+  have e4 : wt_muSig2Taproot = 3 := by decide
+  have hle : best ≥ a.expiry ↔ a.expiry.toNat ≤ best.toNat := UInt32.le_iff_toNat_le
+  unfold determineWitnessType
+  rw [e1, e2, e3, e4]
+  by_cases hv : a.version = VersionTaprootEnabled ∨ a.version = VersionMuSig2V100RC2 <;>
+    by_cases hx : a.state = StateExpired ∨ best ≥ a.expiry <;>
+    simp only [hv, hx, if_true, if_false] <;> rw [hle] at hx <;> simp [hx]
 
 end Pool.C07
